@@ -355,6 +355,14 @@ fn vp_u32_to_le_bytes(x: u32) -> (r: [u8; 4])
 fn vp_u32_from_le_bytes(b: [u8; 4]) -> (r: u32)
     ensures r == from_le32(b@),
 { u32::from_le_bytes(b) }
+#[verifier::external_body]
+fn vp_u32_to_be_bytes(x: u32) -> (r: [u8; 4])
+    ensures r@ == le32(x).reverse(),
+{ x.to_be_bytes() }
+#[verifier::external_body]
+fn vp_u32_from_be_bytes(b: [u8; 4]) -> (r: u32)
+    ensures r == from_le32(b@.reverse()),
+{ u32::from_be_bytes(b) }
 
 pub assume_specification<T, const N: usize> [<[T]>::split_first_chunk] (s: &[T]) -> (r: Option<(&[T; N], &[T])>)
     ensures
@@ -493,7 +501,7 @@ pub struct VpDirEntry { e: fs::DirEntry }
 
 /// O15: `self.manifest.files.values().flat_map(|x| x.fragment.iter().chain(x.diagnostics.iter())).map(|x| self.root.join(x)).collect()`
 /// ASSUMED (the iterator chain is not ingestible by Verus): the set holds exactly root.join(x) for every fragment / diagnostics
-/// path x of every entry. The Kani job `gc_*` checks this chain on the real text for small manifests.
+/// path x of every entry. Not verified; the native differential run (replay.rs) exercises the real chain: after every save each referenced blob must still load.
 #[verifier::external_body]
 fn vp_referenced(files: &BTreeMap<String, FileEntry>, root: &PathBuf) -> (r: VpPathSet)
     ensures forall|p: Seq<char>| r@.contains(p) <==> is_referenced(fv(files@), p),
